@@ -153,6 +153,7 @@ def r10_1(q, R, spec):
         return
     self_id, ns_param = pids
     levels = _levels(R, rid, fn, self_id, spec["levels"], need_key=False)
+    lookup_keys = set()
     for lv in ORDER:
         L = levels.get(lv)
         if L is None:
@@ -180,17 +181,19 @@ def r10_1(q, R, spec):
             init = H.let_init_of(fn["body"], l[0]) if l else None
             src = H.peel(init, tries=True) if init is not None else {}
             good = False
-            if src.get("k") == "mcall" and src["name"] == "get_namespace" and len(src["args"]) == 1:
+            if src.get("k") == "mcall" and len(src["args"]) == 1 and (src.get("callee") or {}).get("key") in q.by_key:
                 root, _ = H.place_root(src["recv"])
                 a = H.local_of(src["args"][0])
                 good = bool(root) and root[0] == self_id and bool(a) and a[0] == ns_param
+                if good:
+                    lookup_keys.add(src["callee"]["key"])
             got_ns.append(H.render(init) if init is not None else H.render(ix))
             ok_ns = ok_ns and good
         R.inst(rid, "ns-index:" + lv, ok_ns, sp=L["closure"]["sp"], expect="names[self.get_namespace(namespace)?]", got=got_ns,
                detail="'only depends on the mapping in the namespace given'")
         _children_first(R, rid, lv, L, sl["children"], rec["empty"])
     # Mappings::get_namespace -> Namespaces::get_namespace -> position of the equal name
-    _ns_lookup(q, R, rid)
+    _ns_lookup(q, R, rid, lookup_keys)
     # nothing else is changed
     bad = []
     for n in H.walk(fn["body"]):
@@ -271,52 +274,94 @@ def _remove_atom(L, rec):
     return atom
 
 
-def _ns_lookup(q, R, rid):
-    outer = q.fn("get_namespace", impl_ty="quill::tree::mappings::Mappings<")
-    inner = q.fn("get_namespace", impl_ty="quill::tree::names::Namespaces<")
-    if not (R.anchor(rid, "fn Mappings::get_namespace", outer) and R.anchor(rid, "fn Namespaces::get_namespace", inner)):
+def _ns_lookup(q, R, rid, outer_keys):
+    """The function that turns the `namespace` argument into the names index (found by role: it is what remove_dummy calls),
+    followed through delegation to the function that searches the namespace names."""
+    outer = q.by_key.get(sorted(outer_keys)[0]) if len(outer_keys) == 1 else q.fn("get_namespace", impl_ty="quill::tree::mappings::Mappings<")
+    if not R.anchor(rid, "fn Mappings::get_namespace (called by remove_dummy for the `namespace` argument)", outer):
         return
-    # outer delegates to self.info.namespaces.get_namespace(name)
+    # outer delegates to self.info.namespaces.<lookup>(name)
     res = H.peel(_result_expr(outer["body"]) or {}, tries=True)
     ok = False
-    if res.get("k") == "mcall" and res["name"] == "get_namespace" and (res.get("callee") or {}).get("key") == inner["key"]:
+    inner = None
+    if res.get("k") == "mcall" and len(res["args"]) == 1:
+        inner = q.by_key.get((res.get("callee") or {}).get("key"))
         root, path = H.place_root(res["recv"])
-        a = H.local_of(res["args"][0]) if res["args"] else None
+        a = H.local_of(res["args"][0])
         pids = H.param_ids(outer)
-        ok = bool(root) and root[0] == pids[0] and _plain(path) == ["info", "namespaces"] and bool(a) and a[0] == pids[1]
+        ok = (inner is not None and bool(root) and len(pids) == 2 and root[0] == pids[0] and _plain(path) == ["info", "namespaces"]
+              and bool(a) and a[0] == pids[1])
     R.inst(rid, "ns-lookup:Mappings.get_namespace", ok, sp=outer["sp"], expect="self.info.namespaces.get_namespace(name)", got=H.render(res)[:120])
-    # inner: for (id, namespace) in self.names.iter().enumerate() { if namespace == name { return Ok(Namespace(id)) } }
+    if inner is None:
+        inner = q.fn("get_namespace", impl_ty="quill::tree::names::Namespaces<")
+    if not R.anchor(rid, "fn Namespaces::get_namespace", inner):
+        return
     pids = H.param_ids(inner)
-    fors = [n for n in H.walk(inner["body"]) if n.get("k") == "for"]
-    ok = False
-    got = None
-    if len(fors) == 1 and len(pids) == 2:
-        fr = fors[0]
-        binds = H.pat_bindings(fr["pat"])
-        it = H.peel(fr["iter"])
-        root, path = H.place_root(it["recv"]) if it.get("k") == "mcall" and it["name"] == "enumerate" else (None, [])
-        rets = [n for n in H.walk(fr["body"]) if n.get("k") == "ret" and "e" in n]
-        if len(binds) == 2 and root and root[0] == pids[0] and _plain(path) == ["names"] and path[-1:] == [".iter()"] and len(rets) == 1:
-            idx_id, el_id = binds[0][0], binds[1][0]
-            r = H.peel(rets[0]["e"])
-            got = H.render(r)
-            ctor_ok = False
-            if r.get("k") == "call" and (H.ctor_of(r) or (None, None))[1] == "Ok" and len(r["args"]) == 1:
-                c = H.peel(r["args"][0])
-                if c.get("k") == "call" and (H.ctor_of(c) or ("", None))[0] == "quill::tree::names::Namespace" and len(c["args"]) == 1:
-                    l = H.local_of(c["args"][0])
-                    ctor_ok = bool(l) and l[0] == idx_id
-            conds = [c for c in H.path_conditions(fr["body"], rets[0]) if c[0] == "if" and c[2] is True]
-            cond_ok = False
-            for _, cn, _ in conds:
-                c0 = H.peel(cn, refs=False)
-                if c0.get("k") == "bin" and c0["op"] == "==":
-                    ids = {(H.local_of(c0["l"]) or (None,))[0], (H.local_of(c0["r"]) or (None,))[0]}
-                    cond_ok = ids == {el_id, pids[1]}
-            ok = ctor_ok and cond_ok and len(conds) == 1
+    ok, got = False, None
+    if len(pids) == 2:
+        ok, got = _search_loop(inner, pids)
+        if not ok:
+            ok2, got2 = _search_position(inner, pids)
+            if ok2 or got is None:
+                ok, got = ok2, got2
     R.inst(rid, "ns-lookup:Namespaces.get_namespace", ok, sp=inner["sp"], got=got,
-           expect="for (id, ns) in self.names.iter().enumerate() { if ns == name { return Ok(Namespace(id)) } }",
+           expect="Ok(Namespace(i)) for the position i of the name equal to the argument (loop with early return, or `position`)",
            detail="the namespace id is the position of the equal name")
+
+
+def _eq_of(cond, x_id, y_id):
+    c0 = H.peel(cond, refs=False)
+    if c0.get("k") == "bin" and c0["op"] == "==":
+        ids = {(H.local_of(c0["l"]) or (None,))[0], (H.local_of(c0["r"]) or (None,))[0]}
+        return ids == {x_id, y_id}
+    return False
+
+
+def _search_loop(inner, pids):
+    """for (id, ns) in self.names.iter().enumerate() { if ns == name { return Ok(Namespace(id)) } }"""
+    fors = [n for n in H.walk(inner["body"]) if n.get("k") == "for"]
+    if len(fors) != 1:
+        return False, None
+    fr = fors[0]
+    binds = H.pat_bindings(fr["pat"])
+    it = H.peel(fr["iter"])
+    root, path = H.place_root(it["recv"]) if it.get("k") == "mcall" and it["name"] == "enumerate" else (None, [])
+    rets = [n for n in H.walk(fr["body"]) if n.get("k") == "ret" and "e" in n]
+    if not (len(binds) == 2 and root and root[0] == pids[0] and _plain(path) == ["names"] and len(rets) == 1):
+        return False, H.render(fr)[:160]
+    idx_id, el_id = binds[0][0], binds[1][0]
+    r = H.peel(rets[0]["e"])
+    ctor_ok = False
+    if r.get("k") == "call" and (H.ctor_of(r) or (None, None))[1] == "Ok" and len(r["args"]) == 1:
+        c = H.peel(r["args"][0])
+        if c.get("k") == "call" and (H.ctor_of(c) or ("", None))[0] == "quill::tree::names::Namespace" and len(c["args"]) == 1:
+            l = H.local_of(c["args"][0])
+            ctor_ok = bool(l) and l[0] == idx_id
+    conds = [c for c in H.path_conditions(fr["body"], rets[0]) if c[0] == "if" and c[2] is True]
+    cond_ok = len(conds) == 1 and _eq_of(conds[0][1], el_id, pids[1])
+    return ctor_ok and cond_ok, H.render(r)
+
+
+def _search_position(inner, pids):
+    """self.names.iter().position(|ns| ns == name) -> Some(i) => Ok(Namespace(i)), None => Err   (match / if let / let-else)"""
+    poss = [n for n in H.walk(inner["body"]) if n.get("k") == "mcall" and n["name"] == "position"]
+    if len(poss) != 1:
+        return False, None
+    p = poss[0]
+    root, path = H.place_root(p["recv"])
+    clo = H.peel(p["args"][0]) if p["args"] else {}
+    pred_ok = (bool(root) and root[0] == pids[0] and _plain(path) == ["names"] and clo.get("k") == "closure" and len(clo["params"]) == 1
+               and clo["params"][0].get("k") == "bind" and _eq_of(clo["body"], clo["params"][0]["id"], pids[1]))
+    if not pred_ok:
+        return False, H.render(p)[:160]
+    if U.unmodelled_mutations(inner["body"]):
+        return False, "mutation in the lookup function"
+    res = {}
+    for cell, pv in (("found", T.V("Some", T.sym("$pos"))), ("absent", T.V("None"))):
+        e = U.Ev(calls={"position": lambda args, pv=pv: pv})
+        res[cell] = e.run_fn(U.norm_body(inner), [T.sym("self"), T.sym("name")])
+    ok = res["found"] == T.V("Ok", T.V("Namespace", T.sym("$pos"))) and res["absent"][0] == "err"
+    return ok, "found: %s; absent: %s" % (T.show(res["found"]), T.show(res["absent"]))
 
 
 # ===================================================================================== R10.2
